@@ -49,8 +49,15 @@ class SortedMap(MutableMapping[K, T], Generic[K, T]):
             # sort keys
             sorted_indices = arg_sort(self.keys_storage)
 
-            self.keys_storage = [self.keys_storage[i] for i in sorted_indices]
-            self.values_storage = [values[i] for i in sorted_indices]
+            keys = self.keys_storage
+            self.keys_storage = []
+            for i in sorted_indices:
+                # arg_sort is stable, so among equal keys the later initial pair comes last and wins like in dict()
+                if len(self.keys_storage) > 0 and self.keys_storage[-1] == keys[i]:
+                    self.values_storage[-1] = values[i]
+                else:
+                    self.keys_storage.append(keys[i])
+                    self.values_storage.append(values[i])
 
     def __getitem__(self, key: K) -> T:
         insert_index, already_in = self.insertions_index(key)
